@@ -1,7 +1,7 @@
 """SYS - end-to-end binding of the system specification Kerberos5.tla (not a listed property; run by C01 and by bin/selftest).
 Real client + simulated KDC + real service + attacker moves; the recorded event sequence must be a behaviour of Kerberos5
 (trace actions reuse Kerberos5!Valid / AuthId / Identity) with Agreement and AtMostOnce checked in every state."""
-import os, json, shutil
+import sys, os, json, shutil
 import vlib
 
 
@@ -268,6 +268,70 @@ def run_kpasswd(run, quick=True):
         if not info["binding_selftest"]["rejected"]:
             raise vlib.Inconclusive("binding self-test: TraceKPasswd accepts a reflected reply reported as success")
         return info, lines, None
+    finally:
+        shutil.rmtree(wd, ignore_errors=True)
+
+
+def run_basicauth(run):
+    """BasicAuth.tla (service.KRB5BasicAuthenticator under KDC spoofing - a mechanism none of the listed properties names): the three
+    variants of the service's check are model checked (the complete one holds, the two weaker ones are violated), then the real
+    Authenticate is run against the simulated KDC with an attacker answering in its place (vh basicauth) and the trace is replayed
+    through the specification: the variant the code conforms to is recorded, and every call in which the real service said yes to a
+    sender who does not know the password is an OBSERVATION (no listed property covers it: it never decides the exit code)."""
+    import re
+    wd = vlib.spec_scratch(["system"])
+    try:
+        info = {"models": {}}
+        for v, expect in (("full", False), ("cname", True), ("decryptOnly", True)):
+            res = vlib.tlc(wd, "BasicAuth", cfg="MCBasic_%s.cfg" % v, timeout=600)
+            m = re.search(r"Invariant (\w+) is violated", res.out) if res.violation else None
+            info["models"][v] = {"distinct": res.distinct, "violated": m.group(1) if m else None}
+            if bool(res.violation) != expect or (expect and (not m or m.group(1) != "YesMeansPassword")) or (not expect and (res.rc != 0 or not res.finished)):
+                raise vlib.Inconclusive("BasicAuth %s: expected violation=%s, got\n%s" % (v, expect, res.out[-2000:]))
+            if not expect:
+                run.add_model(res)
+        trace = os.path.join(wd, "trace.ndjson")
+        vlib.run_harness(["basicauth", "-seed", str(run.seed), "-out", trace], timeout=1200)
+        lines = vlib.read_ndjson(trace)
+        info["calls"] = len(lines)
+        info["yes"] = sum(1 for x in lines if x["yes"])
+        info["answered_by_attacker"] = sum(1 for x in lines if x["asBy"] == "attacker" or x["tgsBy"] == "attacker")
+        info["panics"] = sum(1 for x in lines if x["panic"])
+        conforms = None
+        for v in ("decryptOnly", "cname", "full"):
+            res = vlib.tlc(wd, "TraceBasicAuth", cfg="TraceBasicAuth_%s.cfg" % v, workers=1, timeout=600)
+            if res.rc != 0 or not res.finished:
+                raise vlib.Inconclusive("TraceBasicAuth (%s) failed:\n%s" % (v, res.out[-3000:]))
+            rej = res.tags("REJECTED")
+            info.setdefault("first_rejected_line", {})[v] = int(rej[0]) if rej else None
+            if not rej and conforms is None:
+                conforms = v
+        info["conforms_to"] = conforms
+        by = [x for x in lines if x["yes"] and x["by"] != x["user"]]
+        info["yes_to_a_sender_without_the_password"] = len(by)
+        info["of_those_by_ticket"] = {k: sum(1 for x in by if x["ticket"] == k) for k in sorted({x["ticket"] for x in by})}
+        if conforms is None:
+            vlib.spec_validation_problem(run, "BasicAuth describes the real KRB5BasicAuthenticator under none of its three variants: first rejected lines %s"
+                                         % info["first_rejected_line"])
+        if by:
+            x = by[0]
+            print("OBSERVATION (outside the listed properties): service.KRB5BasicAuthenticator said yes to %d of %d calls made by a sender who does not know the "
+                  "claimed user's password, when the KDC's answers came from an attacker (e.g. user=%s password=%s ticket=%s etype=%d): it checks that the service "
+                  "ticket decrypts under the keytab, not whom it names nor that its session key was delivered (BasicAuth.tla, variant %s)"
+                  % (len(by), len(lines), x["user"], x["pw"], x["ticket"], x["et"], conforms), file=sys.stderr)
+        # ---- binding self-test: a refused call reported as accepted must be rejected by the variant the code conforms to
+        if conforms:
+            k = next(i for i, x in enumerate(lines) if not x["yes"])
+            bad = [dict(x) for x in lines]
+            bad[k]["yes"], bad[k]["idUser"], bad[k]["idRealm"] = True, bad[k]["user"], bad[k]["realm"]
+            vlib.write_ndjson(trace, bad)
+            res = vlib.tlc(wd, "TraceBasicAuth", cfg="TraceBasicAuth_%s.cfg" % conforms, workers=1, timeout=600)
+            info["binding_selftest"] = {"corrupted_line": k + 1, "rejected": bool(res.tags("REJECTED"))}
+            if not info["binding_selftest"]["rejected"]:
+                raise vlib.Inconclusive("binding self-test: TraceBasicAuth accepts a refused call reported as accepted")
+        if info["yes"] == 0 or info["answered_by_attacker"] == 0:
+            raise vlib.Inconclusive("basic authentication trace vacuous: %s" % info)
+        return info
     finally:
         shutil.rmtree(wd, ignore_errors=True)
 
